@@ -249,7 +249,33 @@ def check_version_origin(db, chk):
     chk.ob(R, "detached-uses-V2", e[0] == "agg" and e[2] == "V2", "detached commits use the V2 naming scheme (%s)" % (e[2] if e[0] == "agg" else e[0]), gb.loc(wm2[1]["ln"]))
 
 
+def check_data_before_metadata(db, chk):
+    R = "DOM-data-closed"
+    chk.rule(R, "a data file's descriptor is created only after the file writer finished successfully")
+    n = 0
+    for adapter, ctor in (("V1WriterAdapter", "DataFile::new_legacy"), ("V2WriterAdapter", "DataFile::new")):
+        fs = [f for f in db.fns.values() if f.file.endswith("lance/src/dataset/write.rs") and adapter in f.path and f.path.endswith("::finish") and f.kind == "method"]
+        if len(fs) != 1:
+            raise AnchorMissing("%s::finish not found (%d)" % (adapter, len(fs)))
+        body = user_body(db, fs[0], marker=ctor)
+        chk.analysed(body)
+        c = body.cfg
+        fin = [x for x in calls(body, "FileWriter::finish", "FileWriter::<M>::finish")]
+        mk = [x for x in calls(body, ctor) if name_of(x[1]).endswith(ctor)]
+        if len(fin) != 1 or len(mk) != 1:
+            chk.ob(R, adapter, False, "%s::finish: %d writer.finish() calls, %d descriptor constructions (expected 1, 1)" % (adapter, len(fin), len(mk)), body.loc())
+            continue
+        oks, errs, _ = ok_targets(c, fin[0][0])
+        r_e = c.reachable_from(list(errs), include_start=True, avoid=list(oks)) if errs else set()
+        ok = bool(oks) and any(c.dominates(o, mk[0][0]) for o in oks) and mk[0][0] not in r_e
+        n += 1
+        chk.ob(R, adapter, ok, "%s::finish builds the DataFile only on the success edge of the file writer's finish() (a failed or unfinished "
+               "file is never named by fragment metadata)" % adapter, body.loc(mk[0][1]["ln"]))
+    chk.floor(R, "writer adapters", n, 2)
+
+
 def run(db, chk):
+    check_data_before_metadata(db, chk)
     check_callers(db, chk)
     check_versions_mutators(db, chk)
     check_order(db, chk)
